@@ -45,24 +45,39 @@ def cfg_text(n, c, ov, design=False, edges=True):
 
 
 def behaviours_from_sim(edges, inits):
-    """the simulator may print several candidate edges of one source state: an edge continues the current chain after
-    popping back to its source state"""
-    beh, cur = [], []
+    """TLC's simulator prints (through ACTION_CONSTRAINT Edge) the candidate successor edges of the current state, one
+    group of consecutive edges per visited state; the edge taken is the one whose target is the source of the next group.
+    The last group of a behaviour has no identifiable taken edge and is dropped."""
     init_c = {vf.canon(s) for s in inits}
+    groups = []
     for e in edges:
         fc = vf.canon(e["from"])
+        if groups and groups[-1][0] == fc:
+            groups[-1][1].append(e)
+        else:
+            groups.append((fc, [e]))
+    beh, cur = [], None
+    for gi, (fc, es) in enumerate(groups):
         if fc in init_c:
             if cur:
                 beh.append(cur)
-            cur = [e]
+            cur = []
+        if cur is None:
             continue
-        while cur and vf.canon(cur[-1]["to"]) != fc:
-            cur.pop()
-        if cur:
-            cur.append(e)
+        nxt = groups[gi + 1][0] if gi + 1 < len(groups) else None
+        if nxt is None or nxt in init_c:
+            continue
+        taken = [e for e in es if vf.canon(e["to"]) == nxt]
+        if not taken:
+            # broken chain (should not happen): give up on this behaviour
+            if cur:
+                beh.append(cur)
+            cur = None
+            continue
+        cur.append(taken[0])
     if cur:
         beh.append(cur)
-    return beh
+    return [b for b in beh if b]
 
 
 def run(ctx):
